@@ -6,6 +6,28 @@ ALL = ["C%02d" % i for i in range(1, 21)]
 NOT_APPLICABLE = {}
 TECH = ("contract-based deductive verification: own AST->SMT verification-condition "
         "generator over the real source, sidecar contracts, z3/cvc5 back ends")
+DECIDED_BY = {
+ "C01": "loop invariants + variants on _tick_over / _tick_over_day_of_month; postconditions of TimePoint.__add__/__sub__(Duration) against the spec function instant()",
+ "C02": "postcondition of TimePoint._cmp / __hash__ (result <=> order of instant()); order laws as ghost programs over that contract; bounded same-instant grid only as a safety net for changed code that leaves the verifier's reach",
+ "C03": "postconditions of the 15 calendar helpers against closed-form spec functions, per calendar mode; lemmas over the spec",
+ "C04": "postcondition of TimePoint.__sub__(TimePoint); the identities as ghost programs over the C01/C04 contracts",
+ "C05": "loop invariant of add_months (uninterpreted running-minimum function); mixed-duration and ordinal/week postconditions stated over universally quantified ghost dates, discharged with key-order lemmas",
+ "C06": "postconditions of to_time_zone / to_utc / to_local_time_zone; real dumper + parser composed on symbolic points for literal zones (text tier); bounded grid for the other literals",
+ "C07": "the real TimePointParser.parse executed on symbolic piecewise texts; regex lexing lemma with hypotheses discharged in z3's regular-language theory; bounded grid for the forms not proved",
+ "C08": "ghost programs composing the real str / dump / parse on symbolic points; decimal forms bounded",
+ "C09": "raises-iff-invalid postconditions on the constructors, the same through every text notation; static explicit-raise-set obligation; bounded corpus for arbitrary text",
+ "C10": "the real Duration.__str__ and DurationParser.parse executed on symbolic texts; round-trip ghost program; decimal values in the str direction bounded",
+ "C11": "postconditions on the Duration operators; algebraic laws as ghost programs",
+ "C12": "generator contract of TimeRecurrence.__iter__ (ghost yield counter, universally quantified index); constructor per notation; memoisation-key obligations; nominal intervals bounded",
+ "C13": "postconditions of get_is_valid / __getitem__ / get_next / get_prev / get_first_after over the iteration contract; nominal intervals bounded",
+ "C14": "postconditions of TimeRecurrence.__add__ / __eq__ / __hash__, ghost programs; real str + real parse composed on symbolic recurrences; nominal intervals and remaining texts bounded",
+ "C15": "static footprint (reads-set) and memoisation-key obligations over the real AST, per-mode semantic proofs of the helpers, exhaustive finite enumeration of mode selection",
+ "C16": "static frame / ownership obligations over every function of data.py and dumpers.py plus executor frame obligations (fresh(result), unchanged(x))",
+ "C17": "the real strftime executed on symbolic points; strptime inverse as a ghost composition; other formats bounded",
+ "C18": "postcondition of get_local_time_zone over a symbolic time module; epoch conversions; exhaustive enumeration of whole-minute offsets for the three text forms",
+ "C19": "composition contracts of DateTimeOperator.process_time_point_str / diff_time_point_strs over uninterpreted building blocks; date_diff postcondition; static handler obligation on main(); main(argv) I/O: bounded grid",
+ "C20": "loop invariants + variants of add_truncated with universally quantified ghost dates for minimality; bounded brute-force oracle grid and termination runs for what is not proved",
+}
 checks, na = [], []
 for pid in ALL:
     if os.path.exists("props/%s.py" % pid):
@@ -20,7 +42,7 @@ for pid in ALL:
             "level_claimed": {"category": m.LEVEL, "text": m.LEVEL_TEXT,
                               "design_ref": "DESIGN.md Part A, A.4 row %s (as built); Part B section 5, %s (plan)" % (pid, pid)},
             "level_note": m.LEVEL_NOTE,
-            "technique": TECH + getattr(m, "TECH_EXTRA", ""),
+            "technique": TECH + "; decided by: " + DECIDED_BY[pid],
         })
     else:
         na.append({"property_id": pid, "reason": NOT_APPLICABLE.get(
